@@ -21,6 +21,13 @@ impl Capture {
     }
 }
 
+#[cfg(regexml_verif)]
+impl Capture {
+    pub(crate) fn verif_group_nr(&self) -> usize {
+        self.group_nr
+    }
+}
+
 impl OperationControl for Capture {
     fn get_match_length(&self) -> Option<usize> {
         self.child_op.get_match_length()
